@@ -143,6 +143,13 @@ def template_def(rng, prof):
         tasks = [T("a1", [tr(["a2"], None, [["pa", lit(rng.randint(1, 50))]])]), T("a2"),
                  T("b1", [tr(["b2"], None, [["pb", lit(rng.randint(1, 50))]])]), T("b2", [tr(["b3"])]), T("b3")]
         feat = "tpl_two_leaves"
+    elif k == 15:  # a count join with a retry policy: a branch can arrive while the retry is staged
+        tasks = [T("a", [tr(["j"], None, [["va", lit(1)]])]),
+                 T("b", [tr(["b2"])]), T("b2", [tr(["j"], None, [["vb", lit(2)]])]),
+                 T("j", [tr(["z"], fn("succeeded"))], join=1, input=[["p", ctx("va")]],
+                   retry={"when": None, "count": lit(rng.randint(1, 2)), "delay": rng.choice([None, lit(1)])}),
+                 T("z")]
+        feat = "tpl_retry_count_join"
     else:         # two publish-only transitions and a noop ending
         tasks = [T("a", [tr(["b", "c"])]), T("b", [tr(["noop"], None, [["x", lit(1)]])]),
                  T("c", [tr(["continue"], None, [["v1", fn("result")]]), tr(["continue"], None, [["v2", lit(7)]])])]
